@@ -86,14 +86,13 @@ Definition rename_fs (src dst : path) (t : fs) : fres fs :=
   end
   end.
 
-(* open(O_WRONLY|O_CREAT|O_TRUNC, 0666 & ~umask(022)): symlinks are not followed in the model
-   (renamify never creates through a user symlink: temp names are fresh) *)
+(* open(O_WRONLY|O_CREAT|O_EXCL, 0666 & ~umask(022)) — OpenOptions::create_new, which is how apply.rs creates both its
+   temporary file (since repo fix "create the temp file with create_new") and the case-sensitivity probe: an existing entry of
+   any kind, a symlink included (O_EXCL does not follow it), makes the call fail and is left alone *)
 Definition create_fs (p : path) (t : fs) : fres fs :=
   if negb (is_dir t (parent p)) then FErr ENOENT
   else match lookup t p with
-       | Some (Dir _) => FErr EISDIR
-       | Some (File m _) => FOk ((p, File m []) :: remove t p)
-       | Some (Link _) => FErr EINVAL
+       | Some _ => FErr EEXIST
        | None => FOk ((p, File 420 []) :: t)      (* 0644 *)
        end.
 
